@@ -217,6 +217,30 @@ def run_lines(exe, command, case_path, timeout=3000, extra=None, env=None):
     return p.stdout.splitlines()
 
 
+
+def _retry_hangs(argv, path, outp, rc, err, e, timeout):
+    """The harness watchdog ends the process with exit code 3 and 'HANG <index>' when one case runs
+    past its limit. Such a case is a result, not a tooling failure: its line is replaced by the
+    command `hang` (which prints `hang`) and the file is run again, so every other case is still
+    decided. Returns (rc, err)."""
+    import re
+    tries = 0
+    while rc == 3 and tries < 40:
+        m = re.search(r"HANG (\d+)", err or "")
+        if not m:
+            break
+        idx = int(m.group(1))
+        lines = [l for l in open(path).read().splitlines() if l.strip()]
+        if idx >= len(lines) or lines[idx].split(" ", 1)[0] in ("E", "E2", "hang"):
+            break
+        lines[idx] = "hang"
+        write_lines(path, lines)
+        with open(outp, "w") as fo:
+            pr = subprocess.run(argv, stdout=fo, stderr=subprocess.PIPE, env=e, text=True, timeout=timeout)
+        rc, err = pr.returncode, pr.stderr
+        tries += 1
+    return rc, err
+
 def run_sharded(exe, command, lines, wd, tag, shards=16, timeout=3000, extra=None, env=None):
     """Split `lines` into shards, run them in parallel, return outputs in order."""
     n = len(lines)
@@ -237,20 +261,22 @@ def run_sharded(exe, command, lines, wd, tag, shards=16, timeout=3000, extra=Non
         write_lines(path, part)
         outp = os.path.join(wd, f"{tag}.{i}.out")
         f = open(outp, "w")
-        procs.append((subprocess.Popen([exe, command, path] + (extra or []), stdout=f,
-                                       stderr=subprocess.PIPE, env=e, text=True), f, outp, len(part)))
+        argv = [exe, command, path] + (extra or [])
+        procs.append((subprocess.Popen(argv, stdout=f, stderr=subprocess.PIPE, env=e, text=True), f, outp,
+                      len(part), argv, path))
     out = []
     t0 = time.time()
-    for p, f, outp, k in procs:
+    for p, f, outp, k, argv, path in procs:
         try:
             _, err = p.communicate(timeout=max(1, timeout - (time.time() - t0)))
         except subprocess.TimeoutExpired:
             p.kill()
             raise Undecided(f"{exe} {command} timed out")
         f.close()
+        rc, err = _retry_hangs(argv, path, outp, p.returncode, err, e, timeout)
         got = open(outp).read().splitlines()
-        if p.returncode != 0 or len(got) != k:
-            raise Undecided(f"{exe} {command}: exit {p.returncode}, {len(got)}/{k} lines\n{(err or '')[-2000:]}")
+        if rc != 0 or len(got) != k:
+            raise Undecided(f"{exe} {command}: exit {rc}, {len(got)}/{k} lines\n{(err or '')[-2000:]}")
         out.extend(got)
     return out
 
@@ -372,20 +398,22 @@ def _run_codec_side(exe, cases, lines, wd, tag, shards, timeout, env=None):
                 k += 1
         outp = os.path.join(wd, f"{tag}.{i}.out")
         fo = open(outp, "w")
-        procs.append((subprocess.Popen([exe, "codec", path], stdout=fo, stderr=subprocess.PIPE, env=e, text=True),
-                      fo, outp, k))
+        argv = [exe, "codec", path]
+        procs.append((subprocess.Popen(argv, stdout=fo, stderr=subprocess.PIPE, env=e, text=True),
+                      fo, outp, k, argv, path))
     out = []
     t0 = time.time()
-    for p, fo, outp, k in procs:
+    for p, fo, outp, k, argv, path in procs:
         try:
             _, err = p.communicate(timeout=max(1, timeout - (time.time() - t0)))
         except subprocess.TimeoutExpired:
             p.kill()
             raise Undecided(f"{exe} codec timed out ({tag})")
         fo.close()
+        rc, err = _retry_hangs(argv, path, outp, p.returncode, err, e, timeout)
         got = open(outp).read().splitlines()
-        if p.returncode != 0 or len(got) != k:
-            raise Undecided(f"{exe} codec ({tag}): exit {p.returncode}, {len(got)}/{k} lines\n{(err or '')[-2000:]}")
+        if rc != 0 or len(got) != k:
+            raise Undecided(f"{exe} codec ({tag}): exit {rc}, {len(got)}/{k} lines\n{(err or '')[-2000:]}")
         out.extend(l for l in got if l != "env")
     if len(out) != n:
         raise Undecided(f"{exe} codec ({tag}): {len(out)} results for {n} cases")
